@@ -14,13 +14,13 @@ from .. import sp
 ID = "C09"
 META = {
     "technique": "runtime monitoring: differential monitor of the duplicate-wrapper structure (position, key, previous block identity, complete inner block, live-key index) against a source-order model",
-    "level_text": "All key assignments for documents of up to n items over colliding entry/string/field-key pools are enumerated, plus random grammar derivations over the same pools; after Splitter.split and parse_string the block count, the live first occurrence, every duplicate-key wrapper (key, previous_block identity, complete duplicate) and every duplicate-field wrapper (all occurrences in order, exact duplicate_keys, key not live) are compared with the expectation computed from the source order. Every third case is also parsed with a shipped field-restructuring middleware appended (NormalizeFieldKeys, the two field sorters, a two-element stack; both in-place modes): the wrapped entries of duplicate wrappers must stay complete and in source order. Every third case also parses the first piece with a stack of ONE shipped middleware (nine, both in-place modes) and the second piece into the library that call returned; every third enumerated field value is a bare reference to one of the colliding @string keys.",
+    "level_text": "All key assignments for documents of up to n items over colliding entry/string/field-key pools are enumerated, plus random grammar derivations over the same pools; after Splitter.split and parse_string the block count, the live first occurrence, every duplicate-key wrapper (key, previous_block identity, complete duplicate) and every duplicate-field wrapper (all occurrences in order, exact duplicate_keys, key not live) are compared with the expectation computed from the source order. Every third case is also parsed with a shipped field-restructuring middleware appended (NormalizeFieldKeys, the two field sorters, a two-element stack; both in-place modes): the wrapped entries of duplicate wrappers must stay complete and in source order. Every third case also parses the first piece with a stack of ONE shipped middleware (nine, both in-place modes) and the second piece into the library that call returned; every third enumerated field value is a bare reference to one of the colliding @string keys. All sequences of 2-5 (thorough 6) entries over two keys x {valid, invalid author} are parsed with the name-splitting middlewares appended: a first occurrence that fails there becomes a middleware-error block and every later occurrence stays a complete duplicate-key block at its position.",
     "level_note": "expected structure is derived from the independent recogniser's item list",
 }
 RULE = ("case = document whose entry keys, string keys and field keys come from small pools; all assignments for <= n templated items "
         "(exhaustive) + random grammar derivations; non-trivial = at least one key collision of either kind; distinct = distinct text")
 ASSUMPTIONS = ["entries and strings have separate key spaces", "an entry with repeated field keys does not register its key (statement)"]
-MIN = {"structure_one_middleware_stack_then_into_existing": (3000, 60000), "structure_split": (10000, 200000), "structure_parse_string": (10000, 200000), "dupkey_wrapper": (5000, 100000), "dupfield_wrapper": (3000, 50000), "structure_parse_string_copy_stack": (3000, 60000), "structure_split_into_existing_library": (3000, 60000), "structure_parse_string_field_middlewares": (3000, 60000)}
+MIN = {"structure_first_occurrence_fails_in_middleware": (1000, 5000), "structure_one_middleware_stack_then_into_existing": (3000, 60000), "structure_split": (10000, 200000), "structure_parse_string": (10000, 200000), "dupkey_wrapper": (5000, 100000), "dupfield_wrapper": (3000, 50000), "structure_parse_string_copy_stack": (3000, 60000), "structure_split_into_existing_library": (3000, 60000), "structure_parse_string_field_middlewares": (3000, 60000)}
 
 FIELDSETS = [[], ["t"], ["t", "u"], ["t", "t"], ["t", "u", "t"], ["t", "T"], ["u", "u", "u"]]
 KEYS = ["a", "b"]
@@ -59,6 +59,11 @@ def render(combo):
 def cases(tier, seed, shard, nshards):
     opts = item_options()
     idx = 0
+    for n in range(2, tier_pick(tier, 5, 6) + 1):
+        for seq in itertools.product([(k, b) for k in KEYS for b in (False, True)], repeat=n):
+            idx += 1
+            if idx % nshards == shard:
+                yield {"seq": [list(x) for x in seq], "inplace": idx // nshards % 2}
     for n in range(1, _N(tier) + 1):
         for combo in itertools.product(opts, repeat=n):
             if idx % nshards == shard:
@@ -234,7 +239,45 @@ def parse_field_stack(text, n):
     return sp.escape(lambda: bibtexparser.parse_string(text, append_middleware=mws))
 
 
+def check_first_fails(case, ctx):
+    """The FIRST occurrence of a key fails in a later middleware of the stack (invalid name) and becomes a middleware-error block
+    (seed C09-m: a duplicate marker whose key is free in the rebuilt library was promoted to a live entry): the later occurrences
+    were flagged by the splitter and stay flagged, at their positions, complete."""
+    import bibtexparser
+    from bibtexparser.middlewares import SeparateCoAuthors, SplitNameParts
+    seq = case["seq"]
+    text = "".join("@article{%s, author = {%s}, n = {%d}}\n" % (k, "A, B, C, D" if bad else "Xavier Young", i) for i, (k, bad) in enumerate(seq))
+    inplace = bool(case.get("inplace"))
+    st, lib = sp.escape(lambda: bibtexparser.parse_string(text, append_middleware=[SeparateCoAuthors(allow_inplace_modification=inplace), SplitNameParts(allow_inplace_modification=inplace)]))
+    ctx.ran()
+    ctx.mon("structure_first_occurrence_fails_in_middleware")
+    if st == "raise":
+        return [Violation("raised", f"C09:raise:{lib.split(':')[0]}", dict(api="first_fails", error=lib, text=text))]
+    want, seen = [], set()
+    for k, bad in seq:
+        if k in seen:
+            want.append("dupkey")
+        else:
+            seen.add(k)
+            want.append("mwerror" if bad else "entry")
+    got = [sp.block_kind(b) for b in lib.blocks]
+    if got != want:
+        return [Violation("wrong-block-kind", "C09:kind:first-occurrence-failed-in-middleware", dict(text=text, got=got, want=want))]
+    for i, (b, (k, bad)) in enumerate(zip(lib.blocks, seq)):
+        if want[i] == "dupkey":
+            inner = b.ignore_error_block
+            if b.key != k or inner is None or inner.key != k or [f.key for f in inner.fields] != ["author", "n"] or inner.fields[1].value not in (str(i), "{%d}" % i):
+                return [Violation("dupkey-inner", "C09:dupkey-inner-incomplete:first-occurrence-failed-in-middleware", dict(text=text, index=i))]
+    live = sorted(lib.entries_dict)
+    if live != sorted(k for (k, bad), w in zip(seq, want) if w == "entry"):
+        return [Violation("entries-dict", "C09:entries_dict:first-occurrence-failed-in-middleware", dict(text=text, got=live))]
+    ctx.nontriv(text)
+    return []
+
+
 def check(case, ctx):
+    if "seq" in case:
+        return check_first_fails(case, ctx)
     text = case["text"]
     items = recogniser.recognise(text)
     if items is None:
